@@ -6,7 +6,8 @@ N=$1; shift
 WT=/tmp/sc-$N
 git -C /repo worktree remove --force $WT >/dev/null 2>&1
 git -C /repo worktree add --detach $WT HEAD >/dev/null 2>&1 || exit 3
-( cd $WT && git apply /verif/seeded/$N/patch.diff ) || { echo "patch does not apply"; git -C /repo worktree remove --force $WT; exit 3; }
+( cd $WT && { git apply /verif/seeded/$N/patch.diff 2>/dev/null || git apply -3 /verif/seeded/$N/patch.diff >/dev/null 2>&1; } ) || { echo "$N check -: patch does not apply"; git -C /repo worktree remove --force $WT; exit 3; }
+( cd $WT && git diff --quiet HEAD -- . ) && { echo "$N check -: patch applied to nothing"; git -C /repo worktree remove --force $WT; exit 3; }
 for C in "$@"; do
   R=$(cd /verif && RDSIM_REPO=$WT RDSIM_VERIF=/tmp/scout-$N timeout -k 10 1800 /venv/bin/python -m rdsim check $C --no-evidence 2>&1 | grep -v '^    File' | grep -v KNOWN-FINDING | cut -c1-300)
   V=$(echo "$R" | grep -c '^VIOLATION')
